@@ -7,7 +7,7 @@ use crate::internal::{
     schema::{transmute_field, PrettyField},
 };
 
-use super::utils::{check_dim_names, check_permutation, write_list, DebugRepr};
+use super::utils::{check_dim_names, check_permutation, write_list, JsonString};
 
 /// Easily construct a fixed shape tensor fields (`arrow.fixed_shape_tensor`)
 ///
@@ -111,7 +111,7 @@ impl FixedShapeTensorField {
 
         if let Some(dim_names) = self.dim_names.as_ref() {
             write!(&mut ext_metadata, ",\"dim_names\":")?;
-            write_list(&mut ext_metadata, dim_names.iter().map(DebugRepr))?;
+            write_list(&mut ext_metadata, dim_names.iter().map(JsonString))?;
         }
 
         write!(&mut ext_metadata, "}}")?;
